@@ -106,7 +106,21 @@ func genNeg(r *Rng) Sx {
 		// a filter or the handler itself already put a Content-Type on the response before the entity is written
 		preset = r.Pick([]string{"text/plain", "text/plain; charset=utf-8", "application/octet-stream", "application/json; charset=utf-8"})
 	}
-	return L(Strs(registered), Strs(produces), A(dflt), A(genAccept(r, produces)), B(r.Pct(10)), A(preset), B(r.Pct(35)))
+	accept := genAccept(r, produces)
+	if accept != "" && r.Pct(8) {
+		// the header on two lines: what counts is the first (Header.Get), for the router and the entity writer alike;
+		// often the first line names nothing producible and the second does
+		first := accept
+		if r.Pct(60) {
+			first = r.Pick([]string{"text/html", "image/webp", "application/xhtml+xml;q=0.9", "text/html, image/webp"})
+		}
+		second := genAccept(r, produces)
+		if second == "" && len(produces) > 0 {
+			second = produces[len(produces)-1] + ";q=0.9"
+		}
+		accept = first + "\n" + second
+	}
+	return L(Strs(registered), Strs(produces), A(dflt), A(accept), B(r.Pct(10)), A(preset), B(r.Pct(35)))
 }
 
 type negValue struct {
@@ -163,7 +177,9 @@ func runNeg(raw Sx) (Sx, Sx) {
 		for k := 0; k < times; k++ {
 			q := &Req{Method: "GET", Path: "/n/v"}
 			if accept != "" {
-				q.Set("Accept", accept)
+				for _, line := range strings.Split(accept, "\n") {
+					q.Add("Accept", line)
+				}
 			}
 			rec := httptest.NewRecorder()
 			func() {
@@ -205,7 +221,7 @@ func runNeg(raw Sx) (Sx, Sx) {
 	}
 	// oracle: every q string of the header, ranked by the float strconv.ParseFloat gives it
 	qs := map[string]bool{"1": true}
-	for _, rg := range strings.Split(accept, ",") {
+	for _, rg := range strings.Split(strings.ReplaceAll(accept, "\n", ","), ",") {
 		for _, p := range strings.Split(rg, ";")[1:] {
 			if kv := strings.SplitN(p, "=", 2); len(kv) == 2 && strings.Trim(kv[0], " ") == "q" {
 				qs[strings.Trim(kv[1], " ")] = true
